@@ -66,7 +66,7 @@ func (e *Env) AddServerWithKey(name string, key *refsrv.RSAKey) (*refsrv.Server,
 	e.Res.Addrs[name] = s.Addr()
 	if hs := e.Sc.HS; hs != nil {
 		s.NextHS = func() refsrv.HSParams {
-			return refsrv.HSParams{ServerNonce: hs.ServerNonce, P: hs.P, Q: hs.Q, PQPad8: hs.PQPad8, G: hs.G, A: hs.A, ServerTime: hs.ServerTime, PadSeed: hs.PadSeed, ExtraFingerprints: hs.ExtraFP, FingerprintsAfter: hs.ExtraFPAfter}
+			return refsrv.HSParams{ServerNonce: hs.ServerNonce, P: hs.P, Q: hs.Q, PQPad8: hs.PQPad8, G: hs.G, A: hs.A, ServerTime: hs.ServerTime, PadSeed: hs.PadSeed, ExtraFingerprints: hs.ExtraFP, FingerprintsAfter: hs.ExtraFPAfter, Splits: hs.Splits}
 		}
 	}
 	s.Fault = e.Sc.Fault
@@ -267,8 +267,30 @@ func (e *Env) Connect(patience time.Duration, abort <-chan struct{}) {
 			}
 		}
 		e.Res.ConnectHung = true
+		// did the server answer everything it received, long ago, while the client waits for an answer? Then the client
+		// has all it needs and does not continue: its state, not the machine's load
+		if n, age := e.answeredAll(); n > 0 && age >= patience/2 && strings.Contains(Goroutines(), "makeRequest") {
+			time.Sleep(time.Second)
+			if n2, _ := e.answeredAll(); n2 == n && strings.Contains(Goroutines(), "makeRequest") && !strings.Contains(Goroutines(), "math.SplitPQ") {
+				e.Res.Notes = append(e.Res.Notes, fmt.Sprintf("CLIENT-IDLE-AFTER-REPLY: the server answered all %d messages it received, the last answer %v ago; the client still waits for an answer", n, age.Round(time.Millisecond)))
+			}
+		}
 		e.Res.Notes = append(e.Res.Notes, "connect did not return within the patience; goroutines:\n"+Goroutines())
 	}
+}
+
+// answeredAll: the main server has written a reply to every message of the (single) key exchange it received; returns
+// how many and how long ago the last one was. 0 if that is not the state.
+func (e *Env) answeredAll() (int, time.Duration) {
+	hs := e.Srv.Handshakes()
+	if len(hs) != 1 {
+		return 0, 0
+	}
+	got, sent, last := atomic.LoadInt32(&hs[0].Got), atomic.LoadInt32(&hs[0].Sent), atomic.LoadInt64(&hs[0].LastSentMs)
+	if got == 0 || got != sent {
+		return 0, 0
+	}
+	return int(sent), time.Since(time.UnixMilli(last))
 }
 
 // Call performs one request with a patience and renders the outcome.
